@@ -2,6 +2,7 @@
 from cfg import cfg_of
 from flow import Taint, Tracker, backward, callee_matches, field_reads, op_local, prep
 from rules import CallGuard, CallSink, CmpGuard, RetSink, compare_sites, P, PL
+from rules import returned_directly
 from props.C04 import call_results, agg_field_operands
 from props.C03 import param_seeds
 
@@ -41,7 +42,7 @@ def run(R):
             ra = {r for d, r, p in field_reads(nw, "timestamp") if d in backward(nw, op_local(c["a"]))} if op_local(c["a"]) is not None else set()
             rb = {r for d, r, p in field_reads(nw, "timestamp") if d in backward(nw, op_local(c["b"]))} if op_local(c["b"]) is not None else set()
             if (c["op"] == "Gt" and ra == {1} and rb == {2}) or (c["op"] == "Lt" and ra == {2} and rb == {1}):
-                ok = c["d"] == 0
+                ok = returned_directly(nw, c)
         if not ok:
             R.viol("C13.newer", "newer-polarity", "is_newer_than is not `self.timestamp > other.timestamp`", nw, nw.lines[0])
         R.inst("C13.newer", "K10 polarity", "is_newer_than ⇔ self.timestamp > other.timestamp", 1, ok)
@@ -222,7 +223,7 @@ def expiry_rules(R, pfx="C13"):
                     continue
                 names, _ = _chain_calls(F, he, op_local(c[side]))
                 chain = names
-                if any(n.endswith("SystemTime::duration_since") for n in names) and c["op"] == want and c["d"] == 0:
+                if any(n.endswith("SystemTime::duration_since") for n in names) and c["op"] == want and returned_directly(he, c):
                     ok = True
         if not ok:
             R.viol(pfx + ".expiry", "expiry-polarity", "has_expired is not `age_secs(now - timestamp) > QUOTE_EXPIRATION_SECS`", he, he.lines[0])
@@ -332,7 +333,7 @@ def quote_binding_rules(R, pfx="C13"):
         def src_own(b):
             return Taint(b).closure(call_results(["*<libp2p_identity::peer_id::PeerId as core::convert::From<libp2p_identity::keypair::PublicKey>>::from",
                                                   "*PeerId as core::convert::From<libp2p_identity::keypair::PublicKey>>::from"])(b))
-        R.gate(pfx + ".verify", chk, RetSink("true"),
+        R.gate(pfx + ".verify", chk, RetSink("true", computed=True),
                [[CallGuard(["libp2p_identity::keypair::PublicKey::try_decode_protobuf"], ("Ok",), "pub_key decodes")],
                 [CmpGuard(src_own, P(1, close=True), "Eq", "PeerId::from(pub_key) == claimed_peer", close=False)],
                 [CallGuard(["libp2p_identity::keypair::PublicKey::verify"], ("true",), "pub_key.verify(bytes, signature)")]],
@@ -356,7 +357,9 @@ def quote_binding_rules(R, pfx="C13"):
         prep(c)
         eq = [x for x in compare_sites(c) if x["op"] in ("Eq", "Ne")]
         if eq and any(x["ncallee"] == PQ + "::peer_id" for x in c.calls):
-            okq = R.gate(pfx + ".quotes_by_peer", c, RetSink("Some"),
+            # `filter_map` closure (keeps by returning Some) or `filter` closure (keeps by returning true)
+            keep = RetSink("true", computed=True) if str(c.locals.get("0", "")) == "bool" else RetSink("Some")
+            okq = R.gate(pfx + ".quotes_by_peer", c, keep,
                          [[CmpGuard(lambda b: {1}, call_results([PQ + "::peer_id"]), "Eq", "quote.peer_id() == peer", through="all")]],
                          descr="quotes_by_peer keeps a quote only if its pub_key's peer id equals the asked peer")
     if not qbp or not any(i["rule"] == pfx + ".quotes_by_peer" for i in R.instances):
